@@ -116,10 +116,48 @@ def resolve_printer(m, key):
     return f
 
 
+def _in_test_only(P, node, func):
+    """The expression `node` is used only to decide a branch (inside an if/while/ifexp test, a comparison or a boolean
+    operator), i.e. its value cannot flow into the printed string from this occurrence."""
+    cur = node
+    while cur in P and P[cur] is not func:
+        p = P[cur]
+        if isinstance(p, (ast.If, ast.While, ast.IfExp)) and cur is p.test:
+            return True
+        if isinstance(p, ast.Assert):
+            return True
+        if isinstance(p, (ast.Compare,)) or (isinstance(p, ast.UnaryOp) and isinstance(p.op, ast.Not)):
+            pass          # keep climbing: a comparison may still be an argument of something printed (rare) -> decided by the enclosing test
+        if isinstance(p, ast.stmt):
+            return False
+        cur = p
+    return False
+
+
 def printer_reads(m, key, f, depth=0):
-    """(set of read indices, whole-tuple flag, list of issues sources) for printer f of class key, following delegation."""
+    """(set of indices whose VALUE is used, whole-tuple flag, usage record) for printer f of class key, following
+    delegation.  An index that only occurs in branch conditions (`if self.items[1] is None`) does not count: the element
+    must flow into what is returned on some path."""
     from sa import shapes as SH
     u = SH.printer_use(f)
+    P0 = A.parents(f.node)
+    test_only = set()
+    value_used = set()
+    for n in A.body_nodes(f.node):
+        if isinstance(n, ast.Subscript) and isinstance(n.value, ast.Attribute) and n.value.attr in ("items", "children") \
+                and isinstance(n.value.value, ast.Name) and n.value.value.id == "self":
+            idx = None
+            if isinstance(n.slice, ast.Constant) and isinstance(n.slice.value, int):
+                idx = n.slice.value
+            elif isinstance(n.slice, ast.UnaryOp) and isinstance(n.slice.op, ast.USub) and isinstance(n.slice.operand, ast.Constant):
+                idx = -n.slice.operand.value
+            if idx is None:
+                continue
+            if _in_test_only(P0, n, f.node):
+                test_only.add(idx)
+            else:
+                value_used.add(idx)
+    u.indices = set(i for i in u.indices if i in value_used or i not in test_only)
     # self.children[k] is self.items[k] for non-block nodes
     P = A.parents(f.node)
     for n in A.body_nodes(f.node):
@@ -132,7 +170,10 @@ def printer_reads(m, key, f, depth=0):
     unpack_reads = set()
     for cnt, node in u.unpack:
         names = [e.id if isinstance(e, ast.Name) else None for e in node.targets[0].elts]
-        used = _names_read(f, {x for x in names if x})
+        used = set()
+        for x in A.body_nodes(f.node):
+            if isinstance(x, ast.Name) and isinstance(x.ctx, ast.Load) and x.id in names and not _in_test_only(P0, x, f.node):
+                used.add(x.id)
         for i, nm in enumerate(names):
             if nm in used:
                 unpack_reads.add(i)
@@ -275,4 +316,63 @@ def c01_rules(m):
             r3.fail("%s|unread|%d" % (name, i), "%s: the matcher can store %s in items[%d] (of %d) but the printer %s never reads it: that part "
                     "of the source is dropped from the regenerated text" % (name, sorted(map(str, kinds))[:3], i, a, pf.qualname), m.loc(pf))
     r1.notes.append("%d matchers with an undetermined (open) return among determinate ones" % n_open)
-    return [r1, r2, r3]
+    return [r1, r2, r3, block_printers(m)]
+
+
+def _always_appends(stmts, var):
+    """Every path through stmts appends <var>.tofortran(...) (or str(var)) to some list, with no early exit."""
+    for s in stmts:
+        if isinstance(s, (ast.Continue, ast.Break, ast.Return)):
+            return False
+        if isinstance(s, ast.Expr) and isinstance(s.value, ast.Call) and isinstance(s.value.func, ast.Attribute) and s.value.func.attr == "append" \
+                and s.value.args and var in A.names_in(s.value.args[0]):
+            return True
+        if isinstance(s, ast.If):
+            if s.orelse and _always_appends(s.body, var) and _always_appends(s.orelse, var):
+                return True
+            if any(isinstance(x, (ast.Continue, ast.Break, ast.Return)) for b in (s.body, s.orelse) for y in b for x in ast.walk(y)):
+                return False
+    return False
+
+
+def block_printers(m):
+    r = RuleResult("C01.R8", "every block printer emits all of the block's content: the first, every middle and the last statement")
+    r.floor = 6
+    block = m.key("BlockBase", UTILS)
+    seen = set()
+    for k in sorted(m.classes):
+        if not m.issub(k, block):
+            continue
+        f = m.method(k, "tofortran")
+        if f is None or id(f) in seen:
+            continue
+        seen.add(id(f))
+        r.instances += 1
+        loops = [n for n in A.body_nodes(f.node) if isinstance(n, ast.For)]
+        full = [lp for lp in loops if A.text(lp.iter) == "self.content"]
+        middle = [lp for lp in loops if A.text(lp.iter) == "self.content[1:-1]"]
+        why = None
+        if full:
+            if not _always_appends(full[0].body, A.text(full[0].target)):
+                why = "the loop over self.content does not emit every statement on every path"
+        elif middle:
+            if not _always_appends(middle[0].body, A.text(middle[0].target)):
+                why = "the loop over self.content[1:-1] does not emit every statement on every path"
+            txt = " ".join(A.text(x) for x in A.body_nodes(f.node) if isinstance(x, (ast.Assign, ast.Expr)))
+            first_var = [A.text(n.targets[0]) for n in A.body_nodes(f.node) if isinstance(n, ast.Assign) and A.text(n.value) == "self.content[0]"]
+            last_var = [A.text(n.targets[0]) for n in A.body_nodes(f.node) if isinstance(n, ast.Assign) and A.text(n.value) == "self.content[-1]"]
+            def emitted(var):
+                return any(isinstance(c, ast.Call) and isinstance(c.func, ast.Attribute) and c.func.attr == "append" and c.args
+                           and var in A.names_in(c.args[0]) for c in A.calls(f.node))
+            if not first_var or not emitted(first_var[0]):
+                why = "the first statement (self.content[0]) is not emitted"
+            elif not last_var or not emitted(last_var[0]):
+                why = "the last statement (self.content[-1]) is not emitted"
+        else:
+            why = None
+            r.error("%s: block printer shape not recognised" % f.qualname)
+            continue
+        r.ob(why is None, "%s covers first/middle/last of self.content" % f.qualname)
+        if why:
+            r.fail("%s|coverage" % f.qualname, "%s: %s -- those statements vanish from the regenerated source" % (f.qualname, why), m.loc(f))
+    return r
